@@ -11,6 +11,7 @@ var units = map[string]common.UnitFunc{
 	"c14ctl": unitC14ctl,
 	"c14stress": unitC14stress,
 	"c15": unitC15,
+	"c06": unitC06,
 	"c15ctl": unitC15ctl,
 }
 
